@@ -32,6 +32,8 @@ func c10Ops() []string {
 		}
 	}
 	// `_` is another spelling of message: renaming a key onto itself under the two spellings
+	// values without a string form (an attribute expression yields nothing)
+	ops = append(ops, "set_tag(f1, a.b)", "set_tag(k1, a.b)", "add_key(k1, a.b)", "set_tag(t1, a.b)")
 	ops = append(ops, "rename(message, _)", "rename(_, message)", "rename(_, f1)", "rename(t1, _)", "drop_key(_)", "add_key(_, 2)", "set_tag(_)")
 	return ops
 }
